@@ -8,9 +8,16 @@
 //!              1 = a violation that is not a known finding (a line `VIOLATION property=<id> replay=<path>`),
 //!              2 = the harness itself could not do its job (build failure, non-reproducible candidate, ...).
 
+mod catalogue;
 mod codec;
 mod evidence;
 mod findings;
+mod gens;
+mod hostcase;
+mod props;
+mod selftest;
+mod simcheck;
+mod simrun;
 mod ws;
 
 pub struct Opts {
@@ -75,8 +82,8 @@ fn real_main() -> Result<i32, String> {
     match cmd.as_str() {
         "setup" => {
             let w = ws::Ws::generate()?;
-            w.build(&["codecsim"])?;
-            println!("setup: built codecsim against {}", w.repo.display());
+            w.build(&["codecsim", "simhost"])?;
+            println!("setup: built codecsim and simhost against {}", w.repo.display());
             Ok(0)
         }
         "C11" | "C12" => {
@@ -85,6 +92,21 @@ fn real_main() -> Result<i32, String> {
                 return codec::replay(&w, &cmd, f);
             }
             codec::run(&w, &cmd, &opts)
+        }
+        "C18" | "C07" => {
+            let w = ws::Ws::generate()?;
+            let prop: Box<dyn simcheck::Property> = match cmd.as_str() {
+                "C18" => Box::new(props::C18),
+                _ => Box::new(props::C07),
+            };
+            if let Some(f) = &opts.replay {
+                return simcheck::replay(&w, prop.as_ref(), f);
+            }
+            simcheck::run(&w, prop.as_ref(), &opts)
+        }
+        "selftest" => {
+            let w = ws::Ws::generate()?;
+            selftest::run(&w, opts.seed)
         }
         other => Err(format!("unknown command {other}")),
     }
